@@ -349,6 +349,8 @@ func catalogue(p *profile, s Schema) []Edit {
 		} else {
 			add(Edit{Kind: "drop-pk", Desc: "drop primary key of " + tn, Keys: []string{pkKey}, Needs: []string{needT},
 				Apply: func(s *Schema) { s.table(tn).PK = nil }, Exp: []string{tn + "/-PK"}})
+			add(Edit{Kind: "pk-unique-flag", Desc: "pk of " + tn + ": Unique flag set on one side only (a primary key is unique either way)", Keys: []string{pkKey}, Needs: []string{needT}, NonEdit: true,
+				Apply: func(s *Schema) { pk := s.table(tn).PK; pk.Unique = !pk.Unique }})
 			add(Edit{Kind: "modify-pk", Desc: "pk of " + tn + ": flip DESC", Keys: []string{pkKey}, Needs: []string{needT},
 				Apply: func(s *Schema) { pp := s.table(tn).PK.Parts; pp[0].Desc = !pp[0].Desc }, Exp: []string{fmt.Sprintf("%s/~PK(%d)", tn, kParts)}})
 			if spare != "" {
@@ -501,6 +503,13 @@ func catalogue(p *profile, s Schema) []Edit {
 				}
 				add(fkEdit("fk-action-default", "ON UPDATE '"+fk.OnUpdate+"' -> '"+o+"' (the default)", 0, nil, func(f *FK) { f.OnUpdate = o }))
 			}
+			if p.dialect == "mysql" && (fk.OnDelete == "" || fk.OnDelete == "NO ACTION" || fk.OnDelete == "RESTRICT") {
+				o := "RESTRICT"
+				if fk.OnDelete == o {
+					o = "NO ACTION"
+				}
+				add(fkEdit("fk-action-default", "ON DELETE '"+fk.OnDelete+"' -> '"+o+"' (same action in MySQL)", 0, nil, func(f *FK) { f.OnDelete = o }))
+			}
 			// another column of the child table
 			for _, c := range t.Cols {
 				if !hasStr(fk.Cols, c.Name) && c.Gen == nil {
@@ -516,6 +525,25 @@ func catalogue(p *profile, s Schema) []Edit {
 						cn := c.Name
 						add(fkEdit("fk-refcolumns", "first referenced column -> "+cn, kRefCol, []string{"T:" + rt.Name, rt.Name + "/C:" + cn}, func(f *FK) { f.RefCols[0] = cn }))
 						add(fkEdit("fk-multi", "referenced column, ON DELETE", kRefCol|kDelete, []string{"T:" + rt.Name, rt.Name + "/C:" + cn}, func(f *FK) { f.RefCols[0] = cn; f.OnDelete = nd }))
+						break
+					}
+				}
+			}
+			if len(fk.Cols) > 1 {
+				for _, c := range t.Cols {
+					if !hasStr(fk.Cols, c.Name) && c.Gen == nil {
+						cn := c.Name
+						add(fkEdit("fk-columns", "last column -> "+cn, kColumn, []string{tn + "/C:" + cn}, func(f *FK) { f.Cols[len(f.Cols)-1] = cn }))
+						break
+					}
+				}
+				add(fkEdit("fk-columns", "drop the last column pair", kColumn|kRefCol, nil, func(f *FK) { f.Cols = f.Cols[:len(f.Cols)-1]; f.RefCols = f.RefCols[:len(f.RefCols)-1] }))
+			}
+			if rt := s.table(fk.RefTable); rt != nil && len(fk.RefCols) > 1 {
+				for _, c := range rt.Cols {
+					if !hasStr(fk.RefCols, c.Name) && c.Gen == nil {
+						cn := c.Name
+						add(fkEdit("fk-refcolumns", "last referenced column -> "+cn, kRefCol, []string{"T:" + rt.Name, rt.Name + "/C:" + cn}, func(f *FK) { f.RefCols[len(f.RefCols)-1] = cn }))
 						break
 					}
 				}
@@ -569,6 +597,22 @@ func catalogue(p *profile, s Schema) []Edit {
 					}
 					t.Checks = l
 				}, Exp: []string{fmt.Sprintf("%s/-CK(%s:%s)", tn, k.Name, hx(k.Expr))}})
+			rename := func(desc, nn string) {
+				add(Edit{Kind: "check-name", Desc: "check " + tn + "." + id + ": " + desc + " (checks are matched by name only if both are named, else by expression)", Keys: []string{ckey}, Needs: []string{needT}, NonEdit: true,
+					Apply: func(s *Schema) {
+						t := s.table(tn)
+						for i := range t.Checks {
+							if match(t.Checks[i]) {
+								t.Checks[i].Name = nn
+							}
+						}
+					}})
+			}
+			if k.Name != "" {
+				rename("name dropped, same expression", "")
+			} else {
+				rename("name given, same expression", "n_named")
+			}
 			if k.Name != "" {
 				ne := "(" + k.Expr + " AND 1 = 1)"
 				add(Edit{Kind: "modify-check", Desc: "check " + tn + "." + id + ": change expression", Keys: []string{ckey}, Needs: []string{needT},
